@@ -54,7 +54,7 @@ TRUSTED = [
 REQUIRED_BUCKETS = ["doc/valid", "doc/reader-ok", "num/exponent-repr-small", "num/exponent-repr-large", "num/length<1e-4",
                     "mutant/valid", "mutant/invalid", "mutant/swap", "mutant/number", "mutant/ref", "mutant/id", "mutant/enum",
                     "builder/lanelet", "builder/dynamicObstacle", "builder/state",
-                    "tree/compared", "builder/dyn-shape-default", "builder/dyn-shape-offcentre-or-rotated", "builder/signalState", "precision/1", "precision/12",
+                    "tree/compared", "tree/expressible", "builder/dyn-shape-default", "builder/dyn-shape-offcentre-or-rotated", "builder/signalState", "precision/1", "precision/12",
                     "num/orientation<1e-4", "fmt/float_to_str"]
 WORKERS = {"quick": 1, "thorough": 8}
 
@@ -815,6 +815,10 @@ def run_doc(ctx, spec, mutants=8, correspond=True):
                     "tree written by XMLFileWriter vs CR.XmlW.docNode on the same data")
         ctx.compare({"kind": "tree-valid", "spec": spec}, {"valid": ok}, {"valid": tres["valid"]},
                     "lxml on the written file vs CR.Xsd.validDoc on the model tree")
+        # the hypotheses of C03_valid_doc (schema-expressible, unique ids, resolvable references) hold on the generated scenario
+        ctx.tag("tree/expressible" if tres["expressible"] else "tree/not-expressible")
+        ctx.compare({"kind": "expressible", "spec": spec}, True, tres["expressible"],
+                    f"generated scenario vs CR.C03.Expressible (decidable hypotheses of C03_valid_doc); failing clauses {tres['why']}")
     # ---- correspondence C: mutants, both validators
     r = ctx.rng
     for _ in range(mutants):
